@@ -129,6 +129,15 @@ def o_humidity_factor(T, P):
     return math.exp(H) * math.sqrt(math.pow(delta, 1.02) / math.pow(theta, 3.3))
 
 
+def o_humidity_defined(T, P):
+    """hypothesis [humidity_defined] of the NOx theorems: 0.6 Pv(T) < P (psia)"""
+    tk = T + 0.01
+    beta = (7.90298 * (1.0 - 373.16 / tk) + 3.00571 + 5.02808 * math.log10(373.16 / tk)
+            + 1.3816e-7 * (1.0 - math.pow(10.0, 11.344 * (1.0 - tk / 373.16)))
+            + 8.1328e-3 * (math.pow(10.0, 3.49149 * (1.0 - 373.16 / tk)) - 1.0))
+    return T > 0 and P > 0 and 0.6 * 0.014504 * math.pow(10.0, beta) < P / 101325.0 * 14.696
+
+
 def o_nox(ff, ei, cal, T, P, flat_when_degenerate=True):
     """log-log least-squares line through the four certification points (natural logs), ambient correction."""
     fc = [f if f > 0 else 0.01 for f in cal]
@@ -1002,6 +1011,7 @@ def judge(chk: Check, c, impl, model, ext, nox_flat):
         for i, (ff, T, P) in enumerate(c['pts']):
             o, ok_ = impl['out'][i], impl['out_k'][i]
             cat = o_cat(ff, c['cal'])
+            chk.count('nox:humidity_defined-hypothesis-' + ('holds' if o_humidity_defined(T, P) else 'FAILS'))
             if not finite_nonneg(o):
                 bad = (f'BFFM2 NOx outputs not finite/non-negative at ff={ff}: {o}', None)
                 break
